@@ -104,6 +104,19 @@ def run_case(case):
     n_p = max(1, int(case['n_pilots']))
     pilots = [real_pilot(pm, 'pilot.%04d' % i) for i in range(n_p)]
     tm.add_pilots(pilots)
+    if case.get('app_cb', True):
+        # the application watches its pilots, too: a method of one of its objects, registered
+        # after the pilots were handed to the task manager
+        class _App(object):
+            def __init__(self):
+                self.seen = []
+
+            def on_pilot(self, pilots, state=None):       # (the form Pilot._update calls)
+                self.seen.append(([p.uid for p in pilots], state))
+        app = _App()
+        for p in pilots:
+            p.register_callback(app.on_pilot)
+        res.label('application_method_registered_as_pilot_callback')
 
     def bound_pid(k):
         t = case['tasks'][k]
